@@ -119,6 +119,18 @@ def run(ctx):
     histcheck.run(ctx, MODULE, WEIGHTS, TAGS, lean_extra=EXTRA,
                   release_quick_filter=lambda h: any(op.split()[0] in ('writeSlot',) for op in h))
     class_sweep(ctx)
+    # the length is the caller's: impossible lengths (byte size overflowing / beyond isize::MAX) must be refused
+    from vlib import layout_corr
+    ok, stats, failures = layout_corr.uninit_ovf_pass(ctx)
+    ctx.oblige("faults:uninit-constructors-refuse-impossible-lengths", ok, "%d failing" % len(failures))
+    ctx.coverage["uninit_overflow_lengths"] = stats
+    ctx.coverage["evaluations"] = ctx.coverage.get("evaluations", 0) + stats["cases"]
+    if not ok:
+        body = "uninitialised slice constructors at near-overflow lengths (one child process per case):\n\n" + "\n\n".join(f["text"] for f in failures[:4])
+        if any(f.get("found_input") for f in failures):
+            ctx.violation("shape", body, True)
+        else:
+            ctx.defer_nfi(body)
 
 
 def replay(ctx, path):
